@@ -252,6 +252,12 @@ def decode_number(data_raw: int, bit_offset: int, bit_length: int, signed: bool,
     """
     number_int = decode_int(data_raw, bit_offset, bit_length)
 
+    if offset:
+        # A field with an offset is stored "excess-K": the raw count is unsigned and the sign of the values comes from
+        # the offset.  (The database marks such fields Signed because their values can be negative; their RangeMax
+        # only fits an unsigned raw count.)
+        signed = False
+
     #make it signed using sign extension operation
     if signed:
         signed_mask = 1 << (bit_length -1)
@@ -297,6 +303,8 @@ def encode_number(
     - Applies resolution scaling and sign encoding.
     - Modifies the bits in `data_raw` at the specified offset and returns the new value.
     """
+    if offset:
+        signed = False  # excess-K: the raw count of a field with an offset is unsigned (see decode_number)
     if value is None:
         # Set to "not available" value
         if bit_length == 1:
